@@ -23,3 +23,7 @@ CHECK = dict(
     level_note='Trusted: the ~60-line scheduler model. Bounded depth (reported in evidence), 2-4 fibres.',
     design_ref='DESIGN.md sections 3 and 4 (C01)',
 )
+
+# build variants (bin/checks.py): -DNDEBUG in both tiers (side effects inside assert), the slower builds in thorough only
+CHECK['variants'] = ['sched2']
+CHECK['variant_tiers'] = {'gcc -Os': ('thorough',), 'gcc -O0': ('thorough',)}
